@@ -152,6 +152,25 @@ pub fn gen_c17(rng: &mut Rng, run_seed: u64, miri: bool) -> Program {
         prog.phases.push(Phase { name: "after_maximum_change", reconfig: Some(next), threads, ..Default::default() });
         cur = next;
     }
+    // sometimes: lower the maximum and despawn while pool threads are busy in bodies that will go on to schedule more work
+    if cur >= 2 && !miri && rng.chance(1, 2) {
+        let k = rng.range(1, cur as u64) as usize;
+        let mut occupy = vec![]; let mut acts = vec![];
+        for o in 0..k.min(3) {
+            let h = prog.new_hold();
+            let nested = prog.add_op((o + 1) % 3, Kind::Desync, Disp::None, vec![Step::Touch]);
+            let id = prog.add_op(o, Kind::Desync, Disp::None, vec![Step::Touch, Step::Hold(h), Step::Nest(nested), Step::Touch]);
+            prog.ops[nested].parent = Some(id);
+            acts.push(TAct::Op(id)); occupy.push(h);
+        }
+        let lower = rng.below(k.min(3) as u64) as usize;   // below the number of busy threads: busy threads have to be retired
+        prog.phases.push(Phase { name: "lower_maximum_while_busy", threads: vec![acts], occupy, lower_while_busy: Some(lower), ..Default::default() });
+        if lower == 0 {
+            // whatever was scheduled from inside the retired jobs is carried by a sync afterwards
+            let mut sweep = vec![]; for o in 0..3 { let id = prog.add_op(o, Kind::Sync, Disp::None, vec![Step::Touch]); sweep.push(TAct::Op(id)); }
+            prog.phases.push(Phase { name: "after_lowering_to_zero", threads: vec![sweep], ..Default::default() });
+        }
+    }
     gen::finish_firer(rng, &mut prog, 0);
     prog
 }
